@@ -9,7 +9,7 @@ Dict field.
 """
 from typing import Any, Dict, List, Optional, Sequence, Tuple, TypeVar, Union
 
-from ..core import AnyField, Config, Field, ValidationError
+from ..core import AnyField, Config, Field, ValidationError, copy_default
 
 _KeyT = TypeVar("_KeyT")
 _ValueT = TypeVar("_ValueT")
@@ -196,7 +196,7 @@ class DictField(Field):
         return DictProxy(cfg, self, value)
 
     def __setdefault__(self, cfg: Config) -> None:
-        default = self.default
+        default = copy_default(self.default)
         if isinstance(default, dict) and self._use_proxy:
             default = DictProxy(cfg, self, default)
         elif default is not None:
